@@ -69,7 +69,7 @@ func run(c *vk.Ctx) {
 	if !c.Quick() {
 		modes = append(modes, "mixed:2", "mixed:3")
 	}
-	nCases := c.Pick(40, 400)
+	nCases := c.Pick(40, 300)
 	sem.RunCases(c, base, "mem", nCases, gen.Options{}, 4, 8, func(i int, r *rand.Rand, p *sem.Prepared, contextual []*openfgav1.TupleKey) {
 		oneCase(c, i, r, p, contextual, servers, modes)
 	})
